@@ -1,4 +1,3 @@
-import re
 F = 'xenium/kirsch_bounded_kfifo_queue.hpp'
 CLS = r'kirsch_bounded_kfifo_queue<T, Policies\.\.\.>::'
 # receivers whose .get()/.mark() are marked_idx methods; every other receiver is a marked_value (marked_ptr<T,16>)
@@ -22,7 +21,6 @@ def wrap_ctor(text, lw):   # { _val = ...; }  ->  { uint64_t _val; _val = ...; r
     return '{ uint64_t _val;' + text.strip()[1:-1] + ' return _val; }'
 FI_SUBST = [(r'\bvalue_index\b', '(*value_index_p)', 'ref_value_index'), (r'\bold\b', '(*old_p)', 'ref_old')]
 FI_SIG = r'bool ' + CLS + r'find_index\(uint64_t start_index,\s*uint64_t& value_index,\s*marked_value& old\)'
-REFS = [(r'const marked_idx& ', 'marked_idx ', 'cref')]
 QT = ['quick', 'thorough']; TT = ['thorough']
 UNIT = dict(
   title='kirsch_bounded_kfifo_queue: index word, slot scan, valid-region predicates, committed, try_push, try_pop, constructor, destructor (C06, C07)',
@@ -30,10 +28,15 @@ UNIT = dict(
   drops='templates (value_type / raw_value_type = opaque non-null word below 2^48); marked_idx is its one 64-bit word, the constructor/get/mark texts operate on that word; '
         'marked_value = marked_ptr<T,16> is a 64-bit word with the contract of unit mp (48 pointer bits, 16 mark bits on top); the entry array is a C array of K*S words (padding dropped); '
         'find_index<Empty> is lowered twice (Empty=1 / Empty=0); the lambdas passed to do_pop by try_pop are extracted and lowered as functions, do_pop is lowered with these two in place of '
-        'successFunc/emptyFunc; by-reference parameters are pointers; pointer_queue_traits calls are ghost-ownership stubs; pop() (std::optional flavour of the same do_pop) is not lowered',
+        'successFunc/emptyFunc (try_pop itself, a one-line call of do_pop with these lambdas, and pop(), the std::optional flavour of the same do_pop, are not lowered); by-reference parameters are pointers; '
+        'pointer_queue_traits calls are ghost-ownership stubs; `new entry[n]()` is an allocation stub (bad_alloc above 2^59 entries, records n); a 64-bit division in the constructor is evaluated once and remembered '
+        '(XV_UDIV) so that kbq.ctor.size can name that quotient; XENIUM_VERIF_POINT hooks expand to nothing; all SEQ runs use the real text of every callee, only the two INT validation runs '
+        '(push_int, pop_int) replace find_index/queue_full/segment_empty/committed by recording stubs that answer arbitrarily within their contracts',
   assumptions=['marked_ptr<T,16> make/get/mark: contract of unit mp (C15) used as the model of marked_value',
                'pointer_queue_traits get_raw/release/store/delete_value: ownership stubs (their text is covered by the C07 traits unit)',
-               'mark/tag counters do not wrap during one operation (16-bit slot marks, 64-bits index tags)',
+               'mark/tag counters do not wrap during one operation (16-bit slot marks, (64-bits)-bit index tags); fewer than 2^63 pushes (ghost age counter)',
+               'kbq.ctor.size pins the form of the wrap-around test (quotient _queue_size / k compared with num_segments): cbmc cannot prove bounds of 64x64-bit products, so the obligation refers to the quotient the constructor computed',
+               'SEQ obligations are stated for quiescent states satisfying the representation invariant inv (boundaries, empty outside [head,tail], full strictly inside); that inv is inductive is obligation kbq.inv.preserved',
                '[INT] rely of kbq.push.commit: other threads move head/tail only forward by whole segments keeping 0 <= tail-head <= size-k, a head CAS prepared before the item was inserted can still succeed until the head word changes, '
                'head does not leave a segment whose scan must have seen the item, the inserted item only ever changes by being taken'],
   consts=[dict(name='XV_BITS', file=F, regex=r'static constexpr unsigned bits = ([^;]+);'),
